@@ -141,7 +141,19 @@ pub fn eval_expect(expect: &Expect, rep: &RunReport, session: usize, stmt: usize
             }
             _ => None,
         },
-        Expect::Custom { .. } => None,
+        Expect::Custom { check, data } => {
+            if check == "count" {
+                return match o {
+                    Outcome::Rows(t) => {
+                        let want: usize = data.parse().unwrap_or(0);
+                        if t.rows.len() != want { Some(("rows-mismatch".into(), format!("row count: reference {want}, got {}", t.rows.len()))) } else { None }
+                    }
+                    Outcome::Error { msg, .. } => Some(("unexpected-error".into(), first_line(msg))),
+                    _ => None,
+                };
+            }
+            None
+        }
     }
 }
 
